@@ -2,9 +2,9 @@ package fshelper
 
 import (
 	"os"
-	"path"
 
 	"github.com/goatcms/goatcore/filesystem"
+	"github.com/goatcms/goatcore/varutil"
 )
 
 // SubFS is a filespace related to a base path in other filespace
@@ -15,92 +15,171 @@ type SubFS struct {
 
 // NewSubFS create new sub filesystem. Related to parent filesystem and path.
 func NewSubFS(fs filesystem.Filespace, basePath string) filesystem.Filespace {
-	basePath = path.Clean(basePath) + "/"
 	return SubFS{
-		basePath: basePath,
+		basePath: subBasePath("", basePath),
 		fs:       fs,
 	}
 }
 
+// subBasePath reduce a base path lexically. A path that refers to a parent of the parent
+// filesystem root is resolved inside the root: cleaning a rooted path drops the '..'
+// elements that would climb above it.
+func subBasePath(parentBase, basePath string) string {
+	reduced := varutil.CleanPath("/" + basePath)
+	if reduced == "" || reduced == "." {
+		return parentBase
+	}
+	return parentBase + reduced + "/"
+}
+
+// abs return the path in the parent filesystem. The path must stay under the base path.
+func (sub SubFS) abs(p string) (string, error) {
+	p, err := varutil.ReduceAbsPath(p)
+	if err != nil {
+		return "", err
+	}
+	return sub.basePath + p, nil
+}
+
 // Copy method run Copy method of parent filesystem but in relative base path
-func (sub SubFS) Copy(src, dest string) error {
-	return sub.fs.Copy(sub.basePath+src, sub.basePath+dest)
+func (sub SubFS) Copy(src, dest string) (err error) {
+	if src, err = sub.abs(src); err != nil {
+		return err
+	}
+	if dest, err = sub.abs(dest); err != nil {
+		return err
+	}
+	return sub.fs.Copy(src, dest)
 }
 
 // CopyDirectory method run CopyDirectory method of parent filesystem but in relative base path
-func (sub SubFS) CopyDirectory(src, dest string) error {
-	return sub.fs.CopyDirectory(sub.basePath+src, sub.basePath+dest)
+func (sub SubFS) CopyDirectory(src, dest string) (err error) {
+	if src, err = sub.abs(src); err != nil {
+		return err
+	}
+	if dest, err = sub.abs(dest); err != nil {
+		return err
+	}
+	return sub.fs.CopyDirectory(src, dest)
 }
 
 // CopyFile method run CopyFile method of parent filesystem but in relative base path
-func (sub SubFS) CopyFile(src, dest string) error {
-	return sub.fs.CopyFile(sub.basePath+src, sub.basePath+dest)
+func (sub SubFS) CopyFile(src, dest string) (err error) {
+	if src, err = sub.abs(src); err != nil {
+		return err
+	}
+	if dest, err = sub.abs(dest); err != nil {
+		return err
+	}
+	return sub.fs.CopyFile(src, dest)
 }
 
 // ReadDir method run ReadDir method of parent filesystem but in relative base path
-func (sub SubFS) ReadDir(src string) ([]os.FileInfo, error) {
-	return sub.fs.ReadDir(sub.basePath + src)
+func (sub SubFS) ReadDir(src string) (_ []os.FileInfo, err error) {
+	if src, err = sub.abs(src); err != nil {
+		return nil, err
+	}
+	return sub.fs.ReadDir(src)
 }
 
 // IsExist method run IsExist method of parent filesystem but in relative base path
 func (sub SubFS) IsExist(src string) bool {
-	return sub.fs.IsExist(sub.basePath + src)
+	src, err := sub.abs(src)
+	if err != nil {
+		return false
+	}
+	return sub.fs.IsExist(src)
 }
 
 // IsFile method run IsFile method of parent filesystem but in relative base path
 func (sub SubFS) IsFile(src string) bool {
-	return sub.fs.IsFile(sub.basePath + src)
+	src, err := sub.abs(src)
+	if err != nil {
+		return false
+	}
+	return sub.fs.IsFile(src)
 }
 
 // IsDir method run IsDir method of parent filesystem but in relative base path
 func (sub SubFS) IsDir(src string) bool {
-	return sub.fs.IsDir(sub.basePath + src)
+	src, err := sub.abs(src)
+	if err != nil {
+		return false
+	}
+	return sub.fs.IsDir(src)
 }
 
 // MkdirAll method run MkdirAll method of parent filesystem but in relative base path
-func (sub SubFS) MkdirAll(dest string, filemode os.FileMode) error {
-	return sub.fs.MkdirAll(sub.basePath+dest, filemode)
+func (sub SubFS) MkdirAll(dest string, filemode os.FileMode) (err error) {
+	if dest, err = sub.abs(dest); err != nil {
+		return err
+	}
+	return sub.fs.MkdirAll(dest, filemode)
 }
 
 // ReadFile method run ReadFile method of parent filesystem but in relative base path
-func (sub SubFS) ReadFile(src string) ([]byte, error) {
-	return sub.fs.ReadFile(sub.basePath + src)
+func (sub SubFS) ReadFile(src string) (_ []byte, err error) {
+	if src, err = sub.abs(src); err != nil {
+		return nil, err
+	}
+	return sub.fs.ReadFile(src)
 }
 
 // WriteFile method run WriteFile method of parent filesystem but in relative base path
-func (sub SubFS) WriteFile(dest string, data []byte, perm os.FileMode) error {
-	return sub.fs.WriteFile(sub.basePath+dest, data, perm)
+func (sub SubFS) WriteFile(dest string, data []byte, perm os.FileMode) (err error) {
+	if dest, err = sub.abs(dest); err != nil {
+		return err
+	}
+	return sub.fs.WriteFile(dest, data, perm)
 }
 
 // Filespace create new filespace
-func (sub SubFS) Filespace(src string) (filesystem.Filespace, error) {
+func (sub SubFS) Filespace(src string) (_ filesystem.Filespace, err error) {
+	if src, err = varutil.ReduceAbsPath(src); err != nil {
+		return nil, err
+	}
 	return SubFS{
-		basePath: sub.basePath + path.Clean(src) + "/",
+		basePath: subBasePath(sub.basePath, src),
 		fs:       sub.fs,
 	}, nil
 }
 
 // Reader method run Reader method of parent filesystem but in relative base path
-func (sub SubFS) Reader(src string) (filesystem.Reader, error) {
-	return sub.fs.Reader(sub.basePath + src)
+func (sub SubFS) Reader(src string) (_ filesystem.Reader, err error) {
+	if src, err = sub.abs(src); err != nil {
+		return nil, err
+	}
+	return sub.fs.Reader(src)
 }
 
 // Writer method run Writer method of parent filesystem but in relative base path
-func (sub SubFS) Writer(dest string) (filesystem.Writer, error) {
-	return sub.fs.Writer(sub.basePath + dest)
+func (sub SubFS) Writer(dest string) (_ filesystem.Writer, err error) {
+	if dest, err = sub.abs(dest); err != nil {
+		return nil, err
+	}
+	return sub.fs.Writer(dest)
 }
 
 // Remove method run Remove method of parent filesystem but in relative base path
-func (sub SubFS) Remove(dest string) error {
-	return sub.fs.Remove(sub.basePath + dest)
+func (sub SubFS) Remove(dest string) (err error) {
+	if dest, err = sub.abs(dest); err != nil {
+		return err
+	}
+	return sub.fs.Remove(dest)
 }
 
 // RemoveAll method run RemoveAll method of parent filesystem but in relative base path
-func (sub SubFS) RemoveAll(dest string) error {
-	return sub.fs.RemoveAll(sub.basePath + dest)
+func (sub SubFS) RemoveAll(dest string) (err error) {
+	if dest, err = sub.abs(dest); err != nil {
+		return err
+	}
+	return sub.fs.RemoveAll(dest)
 }
 
 // Lstat method run Lstat method of parent filesystem but in relative base path
-func (sub SubFS) Lstat(src string) (os.FileInfo, error) {
-	return sub.fs.Lstat(sub.basePath + src)
+func (sub SubFS) Lstat(src string) (_ os.FileInfo, err error) {
+	if src, err = sub.abs(src); err != nil {
+		return nil, err
+	}
+	return sub.fs.Lstat(src)
 }
